@@ -1,4 +1,39 @@
-(* C16 placeholder (Model/Scenario.v theorems follow in a later commit) *)
-From Coq Require Import List.
-Theorem C16_placeholder : forall (A : Type) (l : list A), rev (rev l) = l.
-Proof. intros; apply rev_involutive. Qed.
+(* C16 - Scenarios are scheduled independently.
+   (a) The value of a scenario-specific attribute in scenario i (eff) is the value written for i, else
+       for its nearest ancestor scenario, else the unprefixed one; hence a scenario without overrides has
+       exactly the attribute values - and so the schedule - of its parent (C16_same), and an override
+       written for scenario j changes scenario i only if i lies below j (C16_local).
+   (b) The scenario loop schedules each scenario's view on its own component: declaring a further
+       scenario appends a result and changes none (C16_add).
+   The tie to the code (parser routing of 's1:effort', per-scenario ledgers and limit counters) is the
+   comparison of every scenario with the single-scenario project of its effective values (c16.py). *)
+From Coq Require Import List Arith.
+Require Import SP.Model.Scenario SP.Proofs.ScenarioProofs.
+Import ListNotations.
+
+Theorem C16_same : forall (V : Type) parent, (forall i j, parent i = Some j -> j < i) ->
+  forall (ov : nat -> option V) base i j, ov i = None -> parent i = Some j ->
+  eff parent ov base i i = eff parent ov base j j.
+Proof. intros; now apply eff_same. Qed.
+Print Assumptions C16_same.
+
+Theorem C16_root_default : forall (V : Type) parent (ov : nat -> option V) base i,
+  ov i = None -> parent i = None -> eff parent ov base i i = base.
+Proof. intros; now apply eff_root. Qed.
+
+Theorem C16_local : forall (V : Type) parent (ov : nat -> option V) base j v f i,
+  below parent f i j = false ->
+  eff parent (fun k => if Nat.eqb k j then Some v else ov k) base f i = eff parent ov base f i.
+Proof. intros; now apply eff_local. Qed.
+Print Assumptions C16_local.
+
+Theorem C16_add : forall (P R : Type) (sched : P -> R) vs v,
+  schedule_all sched (vs ++ [v]) = schedule_all sched vs ++ [sched v].
+Proof. intros; apply schedule_all_add. Qed.
+
+(* non-vacuity: plan(0) > s1(1) > s2(2), s3(3) child of plan; override for s1 only *)
+Example C16_example :
+  let parent := fun i => match i with 1 => Some 0 | 2 => Some 1 | 3 => Some 0 | _ => None end in
+  let ov := fun i => match i with 1 => Some 16 | _ => None end in
+  map (fun i => eff parent ov 8 i i) [0; 1; 2; 3] = [8; 16; 16; 8].
+Proof. reflexivity. Qed.
